@@ -278,8 +278,8 @@ class Type4Tag(nfc.tag.Tag):
             cclen = unpack(">H", cclen)[0]
             capabilities = self._read_binary(2, min(cclen-2, 15))
 
-            if capabilities is None or len(capabilities) < 13:
-                log.warning("insufficient capability data")
+            if capabilities is None or not 13 <= len(capabilities) <= 15:
+                log.warning("insufficient or excessive capability data")
                 return False
 
             capabilities += (15-len(capabilities)) * b"\0"  # for unpack
